@@ -91,10 +91,12 @@ Definition bare_name_ok (in_vector : bool) (ty : tltype) (v : tv) : bool :=
   | _, _ => true
   end.
 
-(* vectors the library supports: of bare constructors ("named": the element type is a constructor name) and of
-   boxed classes.  (vector int), (vector int256), ... are NOT in this list: see Proofs/TlProofs.v, vector_int_refuted *)
+(* vectors the library supports: of base types (Bool, #, int, long, int128, int256, bytes, string: the elements are
+   encoded like fields of that type), of bare constructors ("named": the element type is a constructor name) and of
+   boxed classes.  Not supported: vectors of vectors and of unclassifiable types. *)
 Definition s_vector_supported (el : tltype) (elname : string) (named : bool) : bool :=
   match el, named with
+  | TFixed _ _, _ | TBytes, _ | TString, _ => true
   | TBare nm, true => String.eqb nm elname
   | TBoxed _, false => true
   | _, _ => false
@@ -132,7 +134,7 @@ Section Enc.
     end.
 
   (* vector elements; an element of zero bytes (a bare constructor without fields) is excluded: the library refuses a
-     count larger than the number of remaining bytes *)
+     count larger than the number of remaining bytes.  Elements of a base type are encoded by enc like scalar fields. *)
   Fixpoint s_elems_with (el : tltype) (l : list tv) : option (list N) :=
     match l with
     | [] => Some []
